@@ -2,7 +2,7 @@
 """tools/reverttest.py: the repairs double as realistic regressions.  For each `fix:` commit in
 /repo: revert it in the working tree (no commit), run the checks of the properties it repaired,
 restore the tree, and report which checks raise a VIOLATION."""
-import json, subprocess, sys
+import json, os, shutil, subprocess, sys, tempfile
 def sh(cmd):
     return subprocess.run(cmd, shell=True, stdout=subprocess.PIPE, stderr=subprocess.STDOUT, text=True)
 FIXES = [("4892530", "D1", ["C02", "C03", "C07", "C06", "C14"]), ("4a57934", "D2", ["C02", "C13", "C01"]),
@@ -11,6 +11,10 @@ FIXES = [("4892530", "D1", ["C02", "C03", "C07", "C06", "C14"]), ("4a57934", "D2
 only = sys.argv[1:]
 assert sh("git -C /repo status --porcelain").stdout.strip() == "", "/repo is not clean"
 out = {}
+# evidence files must describe the unchanged tree: set them aside while checks run on reverted ones
+bak = tempfile.mkdtemp(prefix="evbak-")
+for f in os.listdir("/verif/evidence"):
+    shutil.copy2(os.path.join("/verif/evidence", f), bak)
 for commit, d, pids in FIXES:
     if only and d not in only:
         continue
@@ -25,5 +29,8 @@ for commit, d, pids in FIXES:
             print(d, pid, "exit", c.returncode, v[:1])
     finally:
         sh("git -C /repo revert --abort; git -C /repo checkout -- .")
+for f in os.listdir(bak):
+    shutil.copy2(os.path.join(bak, f), "/verif/evidence")
+shutil.rmtree(bak)
 assert sh("git -C /repo status --porcelain").stdout.strip() == ""
 json.dump(out, open("/verif/build/reverttest.json", "w"), indent=1)
